@@ -7,43 +7,43 @@ RESIDUE_NOTE = "Trusted base: rustc's type checker and MIR construction (nightly
 CLAIMED = {
  "C01": ("precedence/save-restore/forwarding rules over MIR (dominance, switch-edge gates, provenance) + compile-fail witnesses + macro-expansion witness analysed by the same driver; the global-cell rules of C02 are imported (C01.h)",
          "Every path of with_recorder, LocalRecorderGuard::{new,drop}, with_local_recorder and of all 81 macro arm expansions is decided; type-level witnesses quantify over all programs of their shape. The unsound set_default_local_recorder histories (FIFO drop, mem::forget) are reported as known findings F1a/F1b."),
- "C02": ("once-cell premises over MIR: single CAS + store on its success edge, write-dominates-publish, Release/Acquire table, gated read, hand-back ownership on every exit + compile-fail witnesses",
+ "C02": ("once-cell premises over MIR: single CAS + store on its success edge, write-dominates-publish, Release/Acquire table, gated read, hand-back ownership on every exit + compile-fail witnesses; no reference to the state word stored or passed on; restore of the thread-local slot imported from C01",
          "The structural premises of the standard once-cell argument are decided on every path of set/try_load; interleavings themselves are not explored (memory-model reasoning is the trusted argument)."),
  "C04": ("forwarding tables, single-RMW atomic discipline, symbolic value of the CAS closure, loop-shape and conversion tables over MIR/HIR + auto-trait witnesses; CAS retry loops decided by recompute-from-observed-value; sibling storages of C05/C10 imported",
          "With std atomics trusted the single-RMW rule is sufficient (not only necessary) for exactly-once application; decided for every handle/atomic/Arc/From region and every HistogramFn impl in the workspace."),
- "C14": ("ownership-effect table per (function x kind arm) over MIR (edge-dominated arm regions, argument provenance, release-on-unwind reachability), encoding-table agreement, unsafe-impl bounds + witnesses; capacity guard present in every build (not debug-only, via macro backtrace)",
+ "C14": ("ownership-effect table per (function x kind arm) over MIR (edge-dominated arm regions, argument provenance, release-on-unwind reachability), encoding-table agreement, unsafe-impl bounds + witnesses; capacity guard present in every build (not debug-only, via macro backtrace); data pointer taken after the last mutating call on the owner",
          "For both Cowable impls every kind arm of owned_from_parts/clone_from_parts/drop_from_parts is decided to perform exactly the acquire/release effects the encoding requires, on normal and unwind paths; Vec/Arc raw-parts APIs are trusted."),
  "C13": ("forwarding + kind-consistency + sibling-isomorphism over MIR for every layer's Recorder impl; switch-edge gates for the filter; mask/arm tables and provenance for the router; loop-shape (whole-vector iteration, exit only on exhaustion) for the fanout; configured prefix/patterns stored unchanged (conversion-only chains)",
          "Every Recorder method of Stack/Prefix/Filter/Router/Fanout and every Fanout*Fn method is decided on all paths; radix_trie::get_ancestor and aho_corasick::is_match semantics are trusted."),
- "C03": ("sibling agreement of canonical forms read from the typed HIR match arms of hash / == / cmp; who-may-construct rule over every Key aggregate (hash belongs to the stored name/labels); Release/Acquire + dominance table for the hash memo; forwarding of Cow's relations through deref",
+ "C03": ("sibling agreement of canonical forms read from the typed HIR match arms of hash / == / cmp; who-may-construct rule over every Key aggregate (hash belongs to the stored name/labels); Release/Acquire + dominance table for the hash memo; forwarding of Cow's relations through deref; early exits of == justified (false only where name/count/hash differ, true only for one and the same key); no narrowed position in the unbounded class",
          "Agreement of the three relations is decided per label-count class {0,1,2,3..7,8+} (exhaustive over the finite class set); the memoisation protocol premises are decided on every path of get_hash/clone. That sort+lexicographic comparison is a total order is the standard argument, not re-proved."),
  "C06": ("provenance of hash/shard/key through every keyed operation, entry-API-only insertion under the write guard (must-pass-through on guard drops), lock-result handling uniformity, kind-triplet isomorphism and kind-consistency over MIR; key contract imported from C03; Key hash contract and memo publication imported from C03",
          "Every keyed operation of Registry is decided on all paths; RwLock and hashbrown's raw-entry API are trusted. Linearizability under contention is argued from these premises, not explored."),
- "C05": ("slot-protocol ordering/dominance, wait-before-read must-pass-through gates, link-before-publish dominance, seal-before-read fence, CAS-success-edge confinement of reads and epoch-deferred frees, over MIR of bucket.rs",
+ "C05": ("slot-protocol ordering/dominance, wait-before-read must-pass-through gates, link-before-publish dominance, seal-before-read fence, CAS-success-edge confinement of reads and epoch-deferred frees, over MIR of bucket.rs; the chain walk leaves its loop only on a null next pointer",
          "Decides the structural premises (necessary conditions) of the bucket's exactly-once argument on every path of Block::{push,len,data,is_quiesced,drop} and AtomicBucket::{push,data_with,clear_with}; exactly-once delivery under all interleavings itself is NOT decided (residue)."),
  "C12": ("decision-table gates of Recency::should_store over MIR (switch-edge dominance), update-before-bump dominance in with_increment, forwarding of every Generational *Fn method, kind->state injectivity, series-identity agreement in the Prometheus exporter; generation bump on every path of every Generational update method",
          "Decides on every path that a metric is deleted only under all five conditions (incl. the strict comparison) and that bookkeeping is refreshed/removed as required; clock behaviour is not decided."),
- "C07": ("who-may-call on the destructive read, entry-API-only creation under a held write guard, aggregation-arm tables, provenance of rendered _count/_sum/+Inf values, label-merge order, or_insert-only description table, recorder forwarding — over MIR of the Prometheus exporter; scalar values written unconverted; registry/Key contract imported from C06/C03",
+ "C07": ("who-may-call on the destructive read, entry-API-only creation under a held write guard, aggregation-arm tables, provenance of rendered _count/_sum/+Inf values, label-merge order, or_insert-only description table, recorder forwarding — over MIR of the Prometheus exporter; scalar values written unconverted; registry/Key contract imported from C06/C03; HELP looked up under the stored name; Generational forwarding imported from C12",
          "Every sample's path from bucket to rendered line is decided structurally (drain once, record once, cumulative counters rendered); f64 sum equality and concurrency of the bucket itself (C05) are residue."),
- "C08": ("abstract output-alphabet analysis of the escaper (per-iteration reachability from the character switch), predicate-table and gate analysis of the name sanitisers, family-name agreement and TYPE-dominates-samples over render's CFG, suffix/label tables, type/variant condition agreement; unit-suffix text table (every string unit_suffix can return is within the name grammar)",
+ "C08": ("abstract output-alphabet analysis of the escaper (per-iteration reachability from the character switch), predicate-table and gate analysis of the name sanitisers, family-name agreement and TYPE-dominates-samples over render's CFG, suffix/label tables, type/variant condition agreement; unit-suffix text table (every string unit_suffix can return is within the name grammar); every label-formatting closure of key_to_parts sanitises both halves; HELP text written as escaped",
          "Well-formedness is decided for all input strings because every emitted unit is shown to be a complete escape or a harmless character on every path; decided for all Unit values and both distribution variants."),
- "C09": ("must-pass-through of the placeholder re-add after every buffer shrink, symbolic term coverage of the splitter's shadow length against the segments written, commit/accounting pairing by dominance, message-segment order and formatter table — over MIR of writer.rs; tag-section opener set on every way round the tag loop; values reach the formatter unconverted",
+ "C09": ("must-pass-through of the placeholder re-add after every buffer shrink, symbolic term coverage of the splitter's shadow length against the segments written, commit/accounting pairing by dominance, message-segment order and formatter table — over MIR of writer.rs; tag-section opener set on every way round the tag loop; values reach the formatter unconverted; every closed payload typed by the metric_type parameter",
          "Decides for every path of commit/Drop for Payloads/write_* that framing invariants and accounting pairings hold and that every written segment is counted; the arithmetic that makes assert!(commit()) unreachable is argued, not proved."),
- "C10": ("atomic protocol table of AtomicCounter/AtomicGauge (single read of current, swap, single RMW), skip-path reachability in State::flush cut at value==0 edges, documentation-vs-arm table for AggregationMode, transport/write-call table, destructive-read table",
+ "C10": ("atomic protocol table of AtomicCounter/AtomicGauge (single read of current, swap, single RMW), skip-path reachability in State::flush cut at value==0 edges, documentation-vs-arm table for AggregationMode, transport/write-call table, destructive-read table; one setter per builder knob; bucket and writer rules imported from C05/C09",
          "Decides the per-operation atomic protocol and that a destructively read delta is written or proven zero on every path; multi-word races of AtomicCounter are residue."),
- "C11": ("ownership of the taken buffer on every connection-keeping exit of drive_connection (reachability cut at restore sites), parked-value provenance, decrement gating, must-wake-after-send, capacity constant range, name-preserving operation tables; fresh client tokens (counter only ever advanced); intake bounded by the forwarded limit",
+ "C11": ("ownership of the taken buffer on every connection-keeping exit of drive_connection (reachability cut at restore sites), parked-value provenance, decrement gating, must-wake-after-send, capacity constant range, name-preserving operation tables; fresh client tokens (counter only ever advanced); intake bounded by the forwarded limit; removal only on drive_connection()==true; frames encoded into an initially empty growable buffer; `no limit` falls back to the sentinel only",
          "Decides on every path that an unwritten buffer is parked again, that clients are counted out only when removed, and that every enqueue wakes the transport; mio behaviour and liveness are residue."),
- "C15": ("sibling agreement of the bound comparison operator in record/record_many, loop-shape rules (every bound / first bound + cumulative pass), ADT variant-order + derive facts, sort comparator and first-match dominance, expiry-predicate agreement between add and snapshot, bucket-membership gates; window knobs independent; summary _count/_sum rules imported from C07",
+ "C15": ("sibling agreement of the bound comparison operator in record/record_many, loop-shape rules (every bound / first bound + cumulative pass), ADT variant-order + derive facts, sort comparator and first-match dominance, expiry-predicate agreement between add and snapshot, bucket-membership gates; window knobs independent; summary _count/_sum rules imported from C07; one clock function for stamping and window evaluation; create-or-get under one write guard imported from C07",
          "Decides the structural meaning of buckets and windows (operator, order, precedence, predicates); sketch accuracy and numeric edge behaviour are residue."),
- "C16": ("value-range/provenance of the RNG bound (pre-increment count + 1), fill/replace gate table, drain clamp, reset-on-drop must-pass-through, active-side table agreement between push and consume, swap-under-mutex dominance; generator seeded from an entropy source",
+ "C16": ("value-range/provenance of the RNG bound (pre-increment count + 1), fill/replace gate table, drain clamp, reset-on-drop must-pass-through, active-side table agreement between push and consume, swap-under-mutex dominance; generator seeded from an entropy source; exact fill test; capacity used as requested",
          "Decides Algorithm R's necessary bound and the bookkeeping identities on every path; the statistical claim and push-during-drain races are residue."),
- "C17": ("merge-function table (non-overwriting for parent inheritance, overwriting for record), registered-parent provenance, per-type formatting of Visit methods, filter-argument provenance and filter-before-extend dominance in enhance_key, recorder forwarding; allow-list names stored unchanged; pooled maps cleared on every path of the reset function",
+ "C17": ("merge-function table (non-overwriting for parent inheritance, overwriting for record), registered-parent provenance, per-type formatting of Visit methods, filter-argument provenance and filter-before-extend dominance in enhance_key, recorder forwarding; allow-list names stored unchanged; pooled maps cleared on every path of the reset function; inheritance from the direct parent only",
          "Decides on every path which label source wins and what the filter sees; tracing's own span bookkeeping is trusted."),
- "C18": ("typed-HIR gate rule on the async request handler (render only under exactly `if is_allowed`, 403+empty body otherwise), fail-closed table of check_tcp_allowed, loop-exit-freedom of the accept loops, spawn-per-connection, parser table of add_allowed_address vs its documentation; tested address is the peer's own; builder allowlist place written only by add_allowed_address and handed to the listener",
+ "C18": ("typed-HIR gate rule on the async request handler (render only under exactly `if is_allowed`, 403+empty body otherwise), fail-closed table of check_tcp_allowed, loop-exit-freedom of the accept loops, spawn-per-connection, parser table of add_allowed_address vs its documentation; tested address is the peer's own; builder allowlist place written only by add_allowed_address and handed to the listener and stored as given; every value of the metrics answer is this request's render(); no atomic write straddling an await",
          "Decides the allowlist gate and isolation structurally for all requests/peers; hyper/tokio behaviour under malformed input is trusted."),
- "C19": ("unconditional track-then-create per registration (must-pass-through, kind-consistency, sibling isomorphism), who-may-touch on seen/metadata, per-kind arm table of snapshot, accumulate-not-overwrite rule for the histogram drain closure, unit/description update table; local-over-global precedence imported from C01; registry/bucket/atomics rules imported from C06/C05/C04",
+ "C19": ("unconditional track-then-create per registration (must-pass-through, kind-consistency, sibling isomorphism), who-may-touch on seen/metadata, per-kind arm table of snapshot, accumulate-not-overwrite rule for the histogram drain closure, unit/description update table; local-over-global precedence imported from C01; registry/bucket/atomics rules imported from C06/C05/C04; Key contract imported from C03",
          "Decides which metrics a snapshot lists and from where each value is read on every path; values under concurrent updates rest on C04/C05."),
- "C20": ("upgrade-guarded forwarding (Some-edge gate, receiver provenance through the upgraded Arc, Arc liveness across the call), try_unwrap retry-loop shape, field-type ownership facts, no count-peeking / no unsafe who-may-call rules",
+ "C20": ("upgrade-guarded forwarding (Some-edge gate, receiver provenance through the upgraded Arc, Arc liveness across the call), try_unwrap retry-loop shape, field-type ownership facts, no count-peeking / no unsafe who-may-call rules; upgrade() on every path to a return and Some edge always forwarded",
          "Decides that the wrapped recorder is entered only under a live strong reference and recovered only through try_unwrap; termination of the retry loop is residue."),
 }
 checks = []
